@@ -42,6 +42,12 @@ def operator_workload(api, M, S, O, ctx):
     W.append(("laplace.K[p1seg,p1]", lambda: O.dense(O.boundary(api, "laplace", "double_layer", p1seg, p1, p1, parameters=par))))
     W.append(("laplace.W[p1,p1]", lambda: O.dense(O.boundary(api, "laplace", "hypersingular", p1, p1, p1, parameters=par))))
     W.append(("helmholtz.V[p1,p1seg]", lambda: O.dense(O.boundary(api, "helmholtz", "single_layer", p1, p1, p1seg, 1.3 + 0.2j, parameters=par))))
+    # two spaces of the SAME kind on the SAME support whose dof maps differ (boundary dofs only on the test side): the test
+    # colouring must come from the test space's own dof map
+    p1in = api.function_space(grid, "P", 1, segments=[2, 9])
+    p1bd = api.function_space(grid, "P", 1, segments=[2, 9], include_boundary_dofs=True)
+    ctx.note("same_support_pair", {"supports_equal": bool(np.array_equal(p1in.support, p1bd.support)), "dofs": [int(p1in.global_dof_count), int(p1bd.global_dof_count)]})
+    W.append(("helmholtz.V[p1in,p1bd]", lambda: O.dense(O.boundary(api, "helmholtz", "single_layer", p1in, p1bd, p1bd, 1.3 + 0.2j, parameters=par))))
     W.append(("maxwell.E[rwg,snc]", lambda: O.dense(O.boundary(api, "maxwell", "electric_field", rwg, rwg, snc, 0.9, parameters=par))))
     W.append(("laplace.pot.DL[p1]", lambda: np.asarray(O.potential(api, "laplace", "double_layer", p1, pts, parameters=par).evaluate(c_p1))))
     W.append(("sparse.M[p1,dp0]", lambda: O.dense(O.boundary(api, "sparse", "identity", p1, p1, dp0, parameters=par))))
